@@ -43,7 +43,7 @@ def one(args):
         if rc != 0:
             res['status'] = 'worktree failed: %s' % out[-200:]
             return prop, k, res
-        env = dict(os.environ, PYTHONDONTWRITEBYTECODE='1')
+        env = dict(os.environ, PYTHONDONTWRITEBYTECODE='1', PYTHONPATH=wt)
         rc0, o0 = sh('/venv/bin/python %s' % demo, cwd=wt, timeout=600, env=env)
         res['demo_unchanged_exit'] = rc0
         rc, out = sh('git apply %s' % patch, cwd=wt)
